@@ -508,8 +508,9 @@ def read_battery(lines, t, h, keys, r, nseek=12, nrange=24):
     lines.append("buckets %d %d" % (t, h))
     lines.append("kvpairs %d %d" % (t, h))
     lines.append("nextint %d %d" % (t, h))
-    for k in r.sample(pk, min(nseek, len(pk))):
-        lines.append("seek %d %d %s" % (t, h, hx(k)))
+    for n_, k in enumerate(r.sample(pk, min(nseek, len(pk)))):
+        # every third seek re-positions a cursor that has already yielded some entries (or is exhausted)
+        lines.append("seek %d %d %s" % (t, h, hx(k)) + (" %d" % r.choice([1, 2, 5, 1000]) if n_ % 3 == 2 else ""))
         lines.append("get %d %d %s" % (t, h, hx(k)))
     kinds = ["i", "e", "u"]
     for _ in range(nrange):
